@@ -411,7 +411,7 @@ fn check_change(rep: &mut Report, cw: &mut CaseWriter, c: &Change, origin: &str,
     // (a) model
     if model {
         cw.push(
-            format!("chk_chg_body {} {}", coq_bytes(&data), coq_fields(&f)),
+            format!("chk_chg_written {} {}", coq_bytes(&data), coq_fields(&f)),
             json!({"kind": "body", "props": ["C18"], "origin": origin, "raw": hex(&raw)}),
         );
     }
@@ -455,7 +455,7 @@ fn mutate(rng: &mut Rng, data: &[u8], l: &Layout) -> (Vec<u8>, String) {
         &[0xc0, 0x7f],                                                       // over-long -64
     ];
     let bad_utf8: [&[u8]; 8] = [&[0xff], &[0xc0, 0x80], &[0xed, 0xa0, 0x80], &[0xf4, 0x90, 0x80, 0x80], &[0xe0, 0x80, 0x80], &[0xc3], &[0x80], &[0xf0, 0x80, 0x80, 0x80]];
-    match rng.below(16) {
+    match rng.below(20) {
         0 | 1 => {
             let k = rng.below(hdr as u64) as usize;
             let mut v = data.to_vec();
@@ -567,29 +567,50 @@ fn mutate(rng: &mut Rng, data: &[u8], l: &Layout) -> (Vec<u8>, String) {
             uleb(&mut w, *rng.pick(&[n + 1, n.saturating_sub(1), 0, u64::MAX, (1 << 63), u64::MAX - 1]));
             (splice(data, m, e, &w), "column-length".into())
         }
-        13 => {
-            // column count, or an extra (spec, len = 0) pair appended / prepended
+        13 | 17 | 18 | 19 => {
+            // column count; an extra (spec, len = 0) pair inserted where the normalised order puts it (or anywhere);
+            // a pair removed
             let mut p = l.ncols.0;
             let n = read_uleb(data, &mut p).unwrap_or(0);
-            if rng.chance(1, 2) {
-                let mut w = vec![];
-                uleb(&mut w, *rng.pick(&[n + 1, n.saturating_sub(1), u64::MAX]));
-                (splice(data, l.ncols.0, l.ncols.1, &w), "column-count".into())
-            } else {
-                let mut w = vec![];
-                uleb(&mut w, n + 1);
-                let spec = *rng.pick(&[0x07u64, 0x17, 0x57, 0x56, 0x70, 0x71, 0x73, 0x72, 0x76, 0x77, 0x50, 0xf5, 0x100, 0x34, 0xa5]);
-                let at_end = rng.chance(2, 3);
-                if !at_end {
+            match rng.below(6) {
+                0 => {
+                    let mut w = vec![];
+                    uleb(&mut w, *rng.pick(&[n + 1, n.saturating_sub(1), u64::MAX]));
+                    (splice(data, l.ncols.0, l.ncols.1, &w), "column-count".into())
+                }
+                1 if !l.cols.is_empty() => {
+                    let i = rng.below(l.cols.len() as u64) as usize;
+                    let (a, _, e) = l.cols[i];
+                    let mut w = vec![];
+                    uleb(&mut w, n - 1);
+                    w.extend_from_slice(&data[l.ncols.1..a]);
+                    w.extend_from_slice(&data[e..l.data.0]);
+                    (splice(data, l.ncols.0, l.data.0, &w), "column-remove".into())
+                }
+                _ => {
+                    // specs with ids >= 16 probe ColumnSpec::normalize, which keeps only the low byte;
+                    // ids 5 (value) and 7 (pred group) probe the layout rules of the op columns
+                    let spec = *rng.pick(&[0x07u64, 0x17, 0x57, 0x56, 0x50, 0x51, 0x53, 0x70, 0x71, 0x72, 0x73, 0x74, 0x75, 0x76, 0x77, 0x67, 0x66, 0x86,
+                        0x87, 0xf5, 0x34, 0xa5, 0xa0, 0xa6, 0x100, 0x101, 0x107, 0x170, 0x171, 0x173, 0x174, 0x176, 0x177, 0x157, 0x1f3,
+                        0x1000_0005, 0xffff_fff5, 0x102]);
+                    let specs: Vec<u64> = l.cols.iter().map(|(a, _, _)| { let mut q = *a; read_uleb(data, &mut q).unwrap_or(0) }).collect();
+                    let norm = |x: u64| x & 0xf7;
+                    let idx = if rng.chance(1, 5) {
+                        rng.below(specs.len() as u64 + 1) as usize
+                    } else if rng.chance(1, 2) {
+                        specs.iter().position(|x| norm(*x) > norm(spec)).unwrap_or(specs.len())
+                    } else {
+                        specs.iter().position(|x| norm(*x) >= norm(spec)).unwrap_or(specs.len())
+                    };
+                    let at = if idx < l.cols.len() { l.cols[idx].0 } else { l.data.0 };
+                    let mut w = vec![];
+                    uleb(&mut w, n + 1);
+                    w.extend_from_slice(&data[l.ncols.1..at]);
                     uleb(&mut w, spec);
                     w.push(0);
+                    w.extend_from_slice(&data[at..l.data.0]);
+                    (splice(data, l.ncols.0, l.data.0, &w), "column-add".into())
                 }
-                w.extend_from_slice(&data[l.ncols.1..l.data.0]);
-                if at_end {
-                    uleb(&mut w, spec);
-                    w.push(0);
-                }
-                (splice(data, l.ncols.0, l.data.0, &w), "column-add".into())
             }
         }
         14 => {
@@ -604,6 +625,29 @@ fn mutate(rng: &mut Rng, data: &[u8], l: &Layout) -> (Vec<u8>, String) {
                 uleb(&mut w, *rng.pick(&[n + 1, n.saturating_sub(1), u64::MAX]));
                 (splice(data, l.actor.0, p, &w), "actor-length".into())
             }
+        }
+        15 if !l.cols.is_empty() => {
+            // an existing column specification repeated with an empty range (equal normalised specs)
+            let i = rng.below(l.cols.len() as u64) as usize;
+            let (a, m, e) = l.cols[i];
+            let mut p = l.ncols.0;
+            let n = read_uleb(data, &mut p).unwrap_or(0);
+            let mut w = vec![];
+            uleb(&mut w, n + 1);
+            w.extend_from_slice(&data[l.ncols.1..e]);
+            w.extend_from_slice(&data[a..m]);
+            w.push(0);
+            w.extend_from_slice(&data[e..l.data.0]);
+            (splice(data, l.ncols.0, l.data.0, &w), "column-dup".into())
+        }
+        16 if l.cols.len() >= 2 => {
+            // two neighbouring (spec, len) pairs swapped: the total length is unchanged, the order is not normal
+            let i = rng.below(l.cols.len() as u64 - 1) as usize;
+            let (a, _, e) = l.cols[i];
+            let (a2, _, e2) = l.cols[i + 1];
+            let mut w = data[a2..e2].to_vec();
+            w.extend_from_slice(&data[a..e]);
+            (splice(data, a, e2, &w), "column-swap".into())
         }
         _ => {
             let k = rng.below(hdr as u64) as usize;
@@ -647,10 +691,42 @@ fn synthetic_body(rng: &mut Rng) -> (Vec<u8>, String) {
     (d, "synthetic-time".into())
 }
 
+/// UTF-8 boundary sequences (Unicode Table 3-7): the neighbours of every range limit, valid and not
+const UTF8_EDGES: [&[u8]; 30] = [
+    &[0x7f], &[0x80], &[0xbf], &[0xc0, 0x80], &[0xc1, 0xbf], &[0xc2, 0x80], &[0xc2, 0x7f], &[0xc2, 0xc0], &[0xdf, 0xbf], &[0xc2],
+    &[0xe0, 0x9f, 0xbf], &[0xe0, 0xa0, 0x80], &[0xe1, 0x80, 0x80], &[0xec, 0xbf, 0xbf], &[0xed, 0x9f, 0xbf], &[0xed, 0xa0, 0x80],
+    &[0xed, 0xbf, 0xbf], &[0xee, 0x80, 0x80], &[0xef, 0xbf, 0xbf], &[0xe1, 0x80], &[0xe1, 0x80, 0x7f],
+    &[0xf0, 0x8f, 0xbf, 0xbf], &[0xf0, 0x90, 0x80, 0x80], &[0xf1, 0x80, 0x80, 0x80], &[0xf3, 0xbf, 0xbf, 0xbf], &[0xf4, 0x8f, 0xbf, 0xbf],
+    &[0xf4, 0x90, 0x80, 0x80], &[0xf5, 0x80, 0x80, 0x80], &[0xf1, 0x80, 0x80], &[0xff],
+];
+
+/// a minimal change body whose message is a UTF-8 boundary sequence between two ASCII letters
+fn synthetic_message(rng: &mut Rng, k: usize) -> (Vec<u8>, String) {
+    let mut d = vec![0u8, 0]; // no deps, empty actor
+    uleb(&mut d, 1 + rng.below(200));
+    uleb(&mut d, 1 + rng.below(200));
+    sleb(&mut d, rng.next() as i64 >> rng.below(64));
+    let mut m = vec![];
+    if rng.chance(1, 2) {
+        m.push(b'a');
+    }
+    m.extend_from_slice(UTF8_EDGES[k % UTF8_EDGES.len()]);
+    if rng.chance(1, 2) {
+        m.push(b'z');
+    }
+    uleb(&mut d, m.len() as u64);
+    d.extend_from_slice(&m);
+    d.push(0);
+    d.push(0);
+    (d, "synthetic-message".into())
+}
+
 fn classify_error(msg: &str) -> u128 {
     // container-level rejections of Change::parse_following_header (storage/change.rs ParseError via
     // chunk::error::Chunk::Change, or the parser running out of input)
-    if msg.contains("bad change chunk") || msg.contains("not enough data") {
+    // (LoadError::Parse displays as "unable to parse change: <inner>"; the op-column layer has messages
+    // that merely CONTAIN "not enough data", so the match is on the whole string / its prefix)
+    if msg.starts_with("unable to parse change: bad change chunk") || msg == "unable to parse change: not enough data" {
         2
     } else {
         4
@@ -667,7 +743,14 @@ fn check_mutant(rep: &mut Report, cw: &mut CaseWriter, data: &[u8], kind: &str, 
                 &format!("Change::from_bytes of a mutated change chunk panicked: {} at {}", p.message, p.location), replay.clone());
             (3, EMPTY_FIELDS.to_string())
         }
-        Ok(Err(e)) => (classify_error(&e.to_string()), EMPTY_FIELDS.to_string()),
+        Ok(Err(e)) => {
+            let m = e.to_string();
+            let cls = classify_error(&m);
+            // histogram of rejection reasons (numerals erased) for the evidence file
+            let short: String = m.chars().map(|c| if c.is_ascii_digit() { '#' } else { c }).take(90).collect();
+            rep.count(&format!("reject{}|{}", cls, short));
+            (cls, EMPTY_FIELDS.to_string())
+        }
         Ok(Ok(c)) => {
             // an accepted change must behave: same bytes back, hash of its bytes, expandable
             if c.raw_bytes() != &chunk[..] {
@@ -823,6 +906,16 @@ fn check_bundles(rep: &mut Report, rng: &mut Rng, changes: &[Change], n_subsets:
 
 pub fn run(rng: &mut Rng, tier: &str, out: &str) -> Report {
     let mut rep = Report::new("chg");
+    // replay aid: CHG_REPLAY_CHUNK=<hex of a chunk> prints what Change::from_bytes does with it
+    if let Ok(h) = std::env::var("CHG_REPLAY_CHUNK") {
+        let chunk = unhex(h.trim());
+        match guard(|| Change::from_bytes(chunk.clone())) {
+            Ok(Ok(c)) => println!("accepted: {:?} decode: {:?}", fields_of(&c), guard(|| format!("{:?}", c.decode())).map_err(|p| p.message)),
+            Ok(Err(e)) => println!("rejected: {} (class {})", e, classify_error(&e.to_string())),
+            Err(p) => println!("panicked: {} at {}", p.message, p.location),
+        }
+        return rep;
+    }
     let mut cw = CaseWriter::new(out, "chg", HEADER, 40);
     let thorough = tier == "thorough";
     let n_univ = if thorough { 400 } else { 60 };
@@ -887,7 +980,7 @@ pub fn run(rng: &mut Rng, tier: &str, out: &str) -> Report {
     // ---- malformed stream ----
     for k in 0..n_mut {
         if k % 6 == 5 {
-            let (d, kind) = synthetic_body(rng);
+            let (d, kind) = if k % 12 == 5 { synthetic_body(rng) } else { synthetic_message(rng, k / 12) };
             check_mutant(&mut rep, &mut cw, &d, &kind, "synthetic");
             continue;
         }
